@@ -4,3 +4,7 @@ import Props.C11
 #print axioms C11.rmspace_only_whitespace
 #print axioms C11.whitespace_replacement_only_whitespace
 #print axioms C11.layout_changes_literal_counterexample
+#print axioms C11.blanklines_nonblank_lines_verbatim
+#print axioms C11.blanklines_each_substitution
+#print axioms C11.minimize_only_whitespace
+#print axioms C11.minimize_identity_without_blank_groups
